@@ -1,7 +1,9 @@
 #!/usr/bin/env python3
 """Regenerate /verif/harness/shadow/: manifests that compile the sources of the repo's CURRENT
 working tree (VERIF_REPO or /repo) with one extra dependency, sentinel-verif-rt. Nothing in the
-repo is modified; `shadow/repo` is a symlink to the repo root and all paths go through it."""
+repo is modified. The manifests name the sources by ABSOLUTE path: when VERIF_REPO points
+somewhere else the [lib] path changes, which changes cargo's fingerprint and forces a rebuild
+(with a symlink the old build looked fresh whenever the other tree's files were older)."""
 import os, re, sys
 HERE = os.path.dirname(os.path.abspath(__file__))
 REPO = os.path.abspath(os.environ.get("VERIF_REPO", "/repo"))
@@ -9,10 +11,8 @@ SH = os.path.join(HERE, "shadow")
 os.makedirs(os.path.join(SH, "sentinel-core"), exist_ok=True)
 os.makedirs(os.path.join(SH, "sentinel-tower"), exist_ok=True)
 link = os.path.join(SH, "repo")
-if os.path.islink(link) and os.readlink(link) != REPO:
+if os.path.islink(link):
     os.unlink(link)
-if not os.path.islink(link):
-    os.symlink(REPO, link)
 
 def write_if_changed(path, text):
     if os.path.exists(path) and open(path).read() == text:
@@ -25,10 +25,10 @@ src = open(os.path.join(REPO, "sentinel-core", "Cargo.toml")).read()
 cut = src.find("\n[[example]]")
 if cut >= 0:
     src = src[:cut] + "\n"
-src = src.replace('path = "../sentinel-macros"', 'path = "../repo/sentinel-macros"')
+src = src.replace('path = "../sentinel-macros"', 'path = "%s/sentinel-macros"' % REPO)
 src = src.replace('readme = "README.md"\n', "")
 assert "[lib]" in src
-src = src.replace("[lib]\n", '[lib]\npath = "../repo/sentinel-core/src/lib.rs"\n', 1)
+src = src.replace("[lib]\n", '[lib]\npath = "%s/sentinel-core/src/lib.rs"\n' % REPO, 1)
 src = src.replace("[dependencies]\n", '[dependencies]\nsentinel-verif-rt = { path = "../../rt" }\n', 1)
 if "[lints.rust]" not in src:
     src += '\n[lints.rust]\nunexpected_cfgs = { level = "allow" }\n'
@@ -37,6 +37,6 @@ write_if_changed(os.path.join(SH, "sentinel-core", "Cargo.toml"), src)
 tw = open(os.path.join(REPO, "middleware", "tower", "Cargo.toml")).read()
 tw = tw.replace('readme = "README.md"\n', "")
 tw = re.sub(r'sentinel-core = \{[^}]*\}', 'sentinel-core = { path = "../sentinel-core" }', tw)
-tw += '\n[lib]\npath = "../repo/middleware/tower/src/lib.rs"\n'
+tw += '\n[lib]\npath = "%s/middleware/tower/src/lib.rs"\n' % REPO
 write_if_changed(os.path.join(SH, "sentinel-tower", "Cargo.toml"), tw)
 print("shadow ->", REPO)
